@@ -13,7 +13,9 @@ SQUEUE = {"PD": "S", "R": "R", "F": "F", "NF": "F", "OOM": "F", "TO": "F", "CA":
 SACCT = {"PENDING": "S", "RUNNING": "R", "FAILED": "F", "NODE_FAIL": "F", "OUT_OF_MEMORY": "F", "TIMEOUT": "F", "CANCELLED": "C", "CANCELLED by 1234": "C",
          "COMPLETED": "U", "REQUEUED": "L", "RESIZING": "L", "SUSPENDED": "L", "BOOT_FAIL": "T", "DEADLINE": "T", "PREEMPTED": "T", "REVOKED": "T"}
 BJOBS = {"PEND": "S", "RUN": "R", "EXIT": "F", "DONE": "U", "": "U", "PROV": "L", "PSUSP": "L", "USUSP": "L", "SSUSP": "L", "WAIT": "L", "ZOMBI": "L", "UNKWN": "T"}
-QSTAT = {"qw": "S", "hqw": "S", "r": "R", "t": "R", None: "U", "hRwq": "L", "Rr": "L", "Rt": "L", "s": "L", "ts": "L", "S": "L", "tS": "L", "T": "L", "tT": "L", "Rs": "L",
+# qstat(1): pending = qw, hqw, hRwq (and Rq/Rqw/hRq: rescheduled, waiting again); running = r, t, Rr, Rt; the suspended
+# family keeps its slot (submitted or running both acceptable); E* = error, d* = being deleted.
+QSTAT = {"qw": "S", "hqw": "S", "r": "R", "t": "R", None: "U", "hRwq": "S", "Rq": "S", "Rqw": "S", "hRq": "S", "Rr": "R", "Rt": "R", "s": "L", "ts": "L", "S": "L", "tS": "L", "T": "L", "tT": "L", "Rs": "L",
          "Eqw": "T", "Ehqw": "T", "dr": "T", "dt": "T", "ds": "T", "dS": "T", "dT": "T"}
 LOCAL = {"SUBMITTED": "S", "RUNNING": "R", "FAILED": "F", "KILLED": "F", "CANCELLED": "C", "COMPLETED": "U", "UNKNOWN": "U", None: "U"}
 
